@@ -189,8 +189,14 @@ def install(spec: Spec):
     # any other task (other run loops, user tasks, handlers) may have called any public operation
     spec.interference['default'] = Interference('default', havoc=['*'], keep=['name', 'id', 'event_id', 'event_type', 'handler_id', '__name__', '__self__', '__class__',
                                                                                  'max_history_size', 'parallel_handlers', 'wal_path', 'q_maxsize', 'g$loop_running', 'g$current_loop', '_depth'],
-                                                 rely=[('queue_identity_stable', 'implies(old(self.event_queue) is not None, self.event_queue is old(self.event_queue) and self._on_idle is old(self._on_idle))', [])])
+                                                 rely=[('queue_identity_stable', 'implies(old(self.event_queue) is not None, self.event_queue is old(self.event_queue) and self._on_idle is old(self._on_idle))', []),
+                                                       ('global_lock_is_a_singleton', 'implies(old(_global_eventbus_lock) is not None, _global_eventbus_lock is old(_global_eventbus_lock))', [])])
     spec.interference['none'] = Interference('none')
+    # queue accounting (A5) as an assume-guarantee invariant: every task keeps, at its own suspension points,
+    #   unfinished >= queued + (events it has taken and not yet task_done()d)
+    spec.interference['runloop'] = Interference('runloop', havoc=['*'], keep=spec.interference['default'].keep, rely=spec.interference['default'].rely,
+                                                 inv=[('inflight_nonneg', 'task_done_calls <= len(dequeued)', ['C15']),
+                                                      ('queue_accounting', 'implies(self.event_queue is not None, self.event_queue.q_unfinished >= len(self.event_queue.q_items) + (len(dequeued) - task_done_calls))', ['C15'])])
 
     # ------------------------------------------------------------------ ReentrantLock (C06)
     spec.ghosts['permits_held'] = parse_ty('int')   # permits of the global lock's semaphore acquired by the current task (task-owned)
@@ -223,6 +229,7 @@ def install(spec: Spec):
     spec.fn('ReentrantLock.__aenter__', file=S, qual='ReentrantLock.__aenter__', is_async=True, params={'self': 'ReentrantLock'}, returns='ReentrantLock',
             requires=[('in_loop', 'loop_running()', [])],
             modifies=[('_depth', 'self'), ('_semaphore', 'self'), ('_loop', 'self'), ('sem_value', '*')], ghost_modifies=['permits_held'],
+            ctx_modifies=['holds_global_lock'],
             callsites={'self._get_semaphore().acquire': {'model': lock_acquire_model, 'writes': ['sem_value'], 'ghost_writes': ['permits_held'], 'suspends': True}},
             ensures=[('holds', "ctx('holds_global_lock')", ['C06']),
                      ('reentrant', "implies(old(ctx('holds_global_lock')), self._depth == old(self._depth) + 1 and permits_held == old(permits_held))", ['C06']),
@@ -236,6 +243,7 @@ def install(spec: Spec):
             params={'self': 'ReentrantLock', 'exc_type': 'any', 'exc_val': 'any', 'exc_tb': 'any'}, returns='NoneType',
             requires=[('in_loop', 'loop_running()', [])],
             modifies=[('_depth', 'self'), ('_semaphore', 'self'), ('_loop', 'self'), ('sem_value', '*')], ghost_modifies=['permits_held'],
+            ctx_modifies=['holds_global_lock'],
             callsites={'self._get_semaphore().release': {'model': lock_release_model, 'writes': ['sem_value'], 'ghost_writes': ['permits_held']}},
             ensures=[('not_held_noop', "implies(not old(ctx('holds_global_lock')), permits_held == old(permits_held) and self._depth == old(self._depth) and not ctx('holds_global_lock'))", ['C06']),
                      ('last_exit_releases', "implies(old(ctx('holds_global_lock')) and old(self._depth) == 1, not ctx('holds_global_lock') and permits_held == old(permits_held) - 1 and self._depth == 0)", ['C06']),
@@ -254,3 +262,85 @@ def install(spec: Spec):
             ensures=[('singleton', 'result is _global_eventbus_lock', ['C06']),
                      ('kept', 'implies(old(_global_eventbus_lock) is not None, result is old(_global_eventbus_lock))', ['C06']),
                      ('fresh_depth0', 'implies(old(_global_eventbus_lock) is None, fresh_object(result) and result._depth == 0 and result._semaphore is None)', ['C06'])])
+
+    # ------------------------------------------------------------------ run loop: _get_next_event / step / _run_loop (C02 C11 C15 C16)
+    spec.ghosts['dequeued'] = parse_ty('list[BaseEvent]')   # events this task has taken off a bus queue, in order (task-owned)
+    for prop in ('events_pending', 'events_started', 'events_completed'):
+        spec.fn('EventBus.' + prop, file=S, qual='EventBus.' + prop, params={'self': 'EventBus'}, returns='list[BaseEvent]', spec_term='@body',
+                notes='one-line view: its own comprehension, evaluated in the specification language, is its specification')
+        spec.properties[('EventBus', prop)] = 'EventBus.' + prop
+
+    IDLE = "not (self.events_pending or self.events_started or self.event_queue.qsize())"
+
+    def idle_set_pre(ex, n):
+        # the idle flag may be raised only in a state with nothing queued, pending or started
+        ex.oblige('callsite:_on_idle.set/requires', 'only_when_idle', ex.spec_bool(IDLE, dict(ex.st.env)), ['C15'])
+
+    spec.fn('EventBus._get_next_event', file=S, qual='EventBus._get_next_event', is_async=True, cancel_must_propagate=True,
+            params={'self': 'EventBus', 'wait_for_timeout': 'real'}, returns='opt[BaseEvent]', interference='runloop',
+            requires=[('started', 'self._on_idle is not None and self.event_queue is not None and loop_running()', [])],
+            assume_asserts=['self._on_idle and self.event_queue'],
+            modifies=[('q_items', '*'), ('ev_set', '*'), ('task_done', '*'), ('task_cancel_requested', '*')], ghost_modifies=['dequeued'],
+            callsites={'self._on_idle.set': {'pre': idle_set_pre}},
+            ensures=[('returns_what_it_dequeued', 'implies(result is not None, dequeued == old(dequeued) + [result])', ['C02', 'C01']),
+                     ('none_means_nothing_kept', 'implies(result is None, dequeued == old(dequeued) or (not self._is_running and len(dequeued) == len(old(dequeued)) + 1))', ['C01', 'C14']),
+                     ('only_while_running', 'implies(result is not None, self._is_running)', ['C16'])],
+            exits_ensure=[('takes_at_most_one', 'len(dequeued) == len(old(dequeued)) or len(dequeued) == len(old(dequeued)) + 1', ['C02'])],
+            raises=[RaisesClause('CancelledError', label='cancelled', tags=['C16'])])
+    spec.methods[('EventBus', '_get_next_event')] = 'EventBus._get_next_event'
+
+    spec.ghosts['processed'] = parse_ty('list[BaseEvent]')    # events for which this task entered process_event, in order (task-owned)
+    spec.ghosts['task_done_calls'] = parse_ty('int')          # task_done() calls made by this task (task-owned)
+
+    def task_done_model(ex, n, awaited, recv=None):
+        q = ex.eval(n.func.value)
+        from contracts import axioms_asyncio as ax
+        ax.queue_task_done(ex, n, awaited, q)
+        ex.ghost_set('task_done_calls', mk_int(ex.ghost('task_done_calls').term + 1))
+        return mk_none()
+
+    PE_RAISES = [RaisesClause('CancelledError', label='cancelled', tags=['C10', 'C16']),
+                 RaisesClause('RuntimeError', label='recursion_guard', tags=['C01', 'C03', 'C11', 'C15'], origin='call:EventBus._get_applicable_handlers'),
+                 RaisesClause('Exception', label='unexpected', caller_only=True)]
+    spec.fn('EventBus.process_event', file=S, qual='EventBus.process_event', is_async=True, trusted=True, interference='runloop',
+            params={'self': 'EventBus', 'event': 'BaseEvent', 'timeout': 'opt[real]'}, returns='NoneType',
+            requires=[('lock_held', "ctx('holds_global_lock')", ['C06', 'C02'])],
+            ghost_modifies=['processed'],
+            exits_ensure=[('entered_once', 'processed == old(processed) + [event]', ['C01'])],
+            raises=PE_RAISES)
+    spec.methods[('EventBus', 'process_event')] = 'EventBus.process_event'
+
+    # whoever runs with holds_global_lock set is inside at least one `async with` of the (existing) global lock
+    LOCK_INV = ('lock_depth_positive_while_held', "implies(ctx('holds_global_lock'), _global_eventbus_lock is not None and _global_eventbus_lock._depth >= 1)", ['C06'])
+    STARTED = ('started', 'self._on_idle is not None and self.event_queue is not None and loop_running()', [])
+    spec.fn('EventBus.step', file=S, qual='EventBus.step', is_async=True,
+            params={'self': 'EventBus', 'event': 'opt[BaseEvent]', 'timeout': 'opt[real]', 'wait_for_timeout': 'real'}, returns='opt[BaseEvent]',
+            requires=[STARTED, LOCK_INV], assume_asserts=['self._on_idle and self.event_queue'], interference='runloop',
+            modifies=[('q_items', '*'), ('q_unfinished', '*'), ('ev_set', '*'), ('task_done', '*'), ('task_cancel_requested', '*'), ('_depth', '*'),
+                      ('_semaphore', '*'), ('_loop', '*'), ('sem_value', '*'), ('g$global_lock', '*')],
+            ghost_modifies=['dequeued', 'processed', 'task_done_calls', 'permits_held'],
+            callsites={'self.event_queue.task_done': {'model': task_done_model, 'writes': ['q_unfinished'], 'ghost_writes': ['task_done_calls']}},
+            exits_ensure=[
+                ('no_task_done_for_a_given_event', 'implies(old(event) is not None, task_done_calls == old(task_done_calls))', ['C15']),
+                ('lock_released', "permits_held == old(permits_held) and ctx('holds_global_lock') == old(ctx('holds_global_lock'))", ['C06']),
+                ('takes_at_most_one', 'len(dequeued) <= len(old(dequeued)) + 1', ['C02']),
+            ],
+            ensures=[
+                ('task_done_once_per_dequeued_event', 'implies(old(event) is None, task_done_calls - old(task_done_calls) == len(dequeued) - len(old(dequeued)) or '
+                                                      '(not self._is_running and task_done_calls == old(task_done_calls)))', ['C15', 'C10']),
+                ('taken_is_processed', 'implies(old(event) is None and len(dequeued) == len(old(dequeued)) + 1, (result is dequeued[len(dequeued) - 1] and processed == old(processed) + [result]) '
+                                       'or (result is None and not self._is_running and processed == old(processed)))', ['C01', 'C02']),
+                ('nothing_taken_nothing_processed', 'implies(old(event) is None and len(dequeued) == len(old(dequeued)), result is None and processed == old(processed))', ['C01']),
+                ('given_event_processed', 'implies(old(event) is not None, result is old(event) and processed == old(processed) + [result] and dequeued == old(dequeued))', ['C01']),
+            ],
+            raises=[RaisesClause('CancelledError', label='cancelled_while_polling', tags=['C16'], origin='call:EventBus._get_next_event',
+                                 ensures=[('no_task_done', 'task_done_calls == old(task_done_calls)', ['C15'])]),
+                    RaisesClause('CancelledError', label='cancelled_with_event_in_hand', tags=['C10', 'C16'], origin='call:ReentrantLock.__aenter__', ensures=[('task_done_once_per_dequeued_event', 'implies(old(event) is None, task_done_calls - old(task_done_calls) == len(dequeued) - len(old(dequeued)) or '
+                                                      '(not self._is_running and task_done_calls == old(task_done_calls)))', ['C15', 'C10'])]),
+                    RaisesClause('CancelledError', label='cancelled_while_processing', tags=['C10', 'C16'], origin='call:EventBus.process_event', ensures=[('task_done_once_per_dequeued_event', 'implies(old(event) is None, task_done_calls - old(task_done_calls) == len(dequeued) - len(old(dequeued)) or '
+                                                      '(not self._is_running and task_done_calls == old(task_done_calls)))', ['C15', 'C10'])]),
+                    RaisesClause('RuntimeError', label='recursion_guard', tags=['C01', 'C03', 'C11', 'C15'], origin='call:EventBus.process_event/recursion_guard', ensures=[('task_done_once_per_dequeued_event', 'implies(old(event) is None, task_done_calls - old(task_done_calls) == len(dequeued) - len(old(dequeued)) or '
+                                                      '(not self._is_running and task_done_calls == old(task_done_calls)))', ['C15', 'C10'])]),
+                    RaisesClause('Exception', label='unexpected', origin='call:EventBus.process_event/unexpected', ensures=[('task_done_once_per_dequeued_event', 'implies(old(event) is None, task_done_calls - old(task_done_calls) == len(dequeued) - len(old(dequeued)) or '
+                                                      '(not self._is_running and task_done_calls == old(task_done_calls)))', ['C15', 'C10'])])])
+    spec.methods[('EventBus', 'step')] = 'EventBus.step'
